@@ -86,6 +86,14 @@ package main
 //@   assert@return result == nil && called("Run") ==> called("RequestStop") && called("AwaitStop")
 //@   assert@return result == nil && called("Run") ==> trace == trace.ev(trace.ev(trace.ev(old(trace), "recv", sigint), "close", instance.stop), "recv", instance.closed)
 
+//@ func cmd:start-from-s3
+//@   property C14 C15 C19
+//@   let mode = cli.flagStr(context, "mode")
+//@   ensures result == nil ==> (mode == "insertion" || mode == "deletion")
+//@   assert@before:Run arg0.Mode == mode && origin(arg1, "ReadSystemFromS3.0")
+//@   assert@before:RequestStop origin(deref(recv), "Run")
+//@   assert@return result == nil && called("Run") ==> called("RequestStop") && called("AwaitStop")
+
 // C19 — gnark's own logger writes to standard output unless it is redirected: main must hand it the repository's
 // logger (standard error) before any command runs, on every path (prove's "exactly one JSON document on standard
 // output" assumes it).
